@@ -49,6 +49,51 @@ type Decl struct {
 	HideValue bool
 	Desc      string
 	Probe     *ProbeSpec // KVar only
+
+	// World state (C20): the default slice object of a multi-valued declaration as the user's program
+	// holds it. When set, every build passes this very slice to the library, the way a program that
+	// declares `Value: defaultTags` does; resetWorld re-creates it at the start of each history.
+	liveStrings []string
+	liveInts    []int
+	liveFloats  []float64
+	live        bool
+}
+
+// resetLive gives the declaration a pristine default slice object.
+func (d *Decl) resetLive() {
+	if !d.Kind.IsList() {
+		return
+	}
+	d.live = true
+	d.liveStrings, d.liveInts, d.liveFloats = nil, nil, nil
+	switch d.Kind {
+	case KStrings:
+		d.liveStrings = append([]string(nil), d.DefList...)
+	case KInts:
+		for _, s := range d.DefList {
+			d.liveInts = append(d.liveInts, atoiDef(s))
+		}
+	case KFloats:
+		for _, s := range d.DefList {
+			d.liveFloats = append(d.liveFloats, atofDef(s))
+		}
+	}
+}
+
+// resetWorld re-creates the user-program state (default slice objects) of the applications.
+func resetWorld(apps ...*AppDecl) {
+	var walk func(c *CmdDecl)
+	walk = func(c *CmdDecl) {
+		for _, d := range c.Decls {
+			d.resetLive()
+		}
+		for _, s := range c.Subs {
+			walk(s)
+		}
+	}
+	for _, a := range apps {
+		walk(a.Root)
+	}
 }
 
 func (d *Decl) EnvVarString() string {
@@ -428,8 +473,8 @@ func (inst *Instance) callback(ev string, cb CB, isAction bool, tag string) func
 	if cb.Kind == CBAbsent {
 		return nil
 	}
-	p := inst.Proc
 	return func() {
+		p := inst.Proc // read at call time: the same instance can be run again as another simulated process
 		p.Emit(ev)
 		if isAction {
 			inst.ActionSnap = inst.Snapshot()
@@ -585,6 +630,9 @@ func (inst *Instance) declare(c *cli.Cmd, cd *CmdDecl, d *Decl) {
 		}
 	case KStrings:
 		def := append([]string(nil), d.DefList...)
+		if d.live {
+			def = d.liveStrings
+		}
 		var prm cli.StringsParam
 		if d.IsArg {
 			prm = cli.StringsArg{Name: d.Name, Desc: d.Desc, EnvVar: env, Value: def, HideValue: d.HideValue, SetByUser: bv.sbu}
@@ -603,6 +651,9 @@ func (inst *Instance) declare(c *cli.Cmd, cd *CmdDecl, d *Decl) {
 		for _, s := range d.DefList {
 			def = append(def, atoiDef(s))
 		}
+		if d.live {
+			def = d.liveInts
+		}
 		var prm cli.IntsParam
 		if d.IsArg {
 			prm = cli.IntsArg{Name: d.Name, Desc: d.Desc, EnvVar: env, Value: def, HideValue: d.HideValue, SetByUser: bv.sbu}
@@ -620,6 +671,9 @@ func (inst *Instance) declare(c *cli.Cmd, cd *CmdDecl, d *Decl) {
 		var def []float64
 		for _, s := range d.DefList {
 			def = append(def, atofDef(s))
+		}
+		if d.live {
+			def = d.liveFloats
 		}
 		var prm cli.Floats64Param
 		if d.IsArg {
